@@ -359,7 +359,7 @@ Fixpoint first_bad_cum_is_keys (rows : list (list cell)) : bool :=
       else match r with
            | [] => false
            | c0 :: rest => negb (is_inc c0) && cell_dates_ok (ps c0) (pe c0) (ev c0)
-                           && cum_keys_brokenb c0 c0 rest
+                           && nodupb (keys (cvals c0)) && cum_keys_brokenb c0 c0 rest
            end
   end.
 Definition spec_cum (t : list cell) (inc back : result (list cell)) : bool :=
@@ -386,9 +386,13 @@ Fixpoint chain_brokenb (c0 p : cell) (rest : list cell) : bool :=
   match rest with
   | [] => false
   | n :: r =>
-      if negb (opt_eqb Z.eqb (prev n) (Some (ev p))) then true
-      else if negb (keyset_eqb (cvals p) (cvals n)) then true
-      else if inc_tail_okb std_desc c0 p [n] then chain_brokenb c0 n r else false
+      match prev n with
+      | None => false
+      | Some pn =>
+          if negb (pn =? ev p) then true
+          else if negb (keyset_eqb (cvals p) (cvals n)) then true
+          else if inc_tail_okb std_desc c0 p [n] then chain_brokenb c0 n r else false
+      end
   end.
 Definition row_brokenb (row : list cell) : bool :=
   match row with
